@@ -29,11 +29,60 @@ fn main() {
     let seed: u64 = std::env::var("VERIF_SEED").ok().and_then(|s| s.parse().ok()).unwrap_or(0);
     let cfg = RunCfg { tier, seed, solver: std::env::var("SYMX_SOLVER").unwrap_or_else(|_| "z3".into()) };
     symx::explore::quiet_panics();
+    // native helpers used by the driver to replay counterexamples of the other engines
+    if prop == "native-float" {
+        use momtrop::float::MomTropFloat;
+        let f = args[2].as_str();
+        let b = |i: usize| f64::from_bits(u64::from_str_radix(&args[i], 16).unwrap());
+        let x = b(3);
+        let r: f64 = match f {
+            "ln" => MomTropFloat::ln(&x),
+            "exp" => MomTropFloat::exp(&x),
+            "cos" => MomTropFloat::cos(&x),
+            "sin" => MomTropFloat::sin(&x),
+            "powf" => MomTropFloat::powf(&x, &b(4)),
+            "from_f64" => x.from_f64(b(4)),
+            "from_isize" => x.from_isize(u64::from_str_radix(&args[4], 16).unwrap() as i64 as isize),
+            "sqrt" => MomTropFloat::sqrt(&x),
+            "inv" => x.inv(),
+            "to_f64" => x.to_f64(),
+            "PI" => x.PI(),
+            "zero" => MomTropFloat::zero(&x),
+            "one" => MomTropFloat::one(&x),
+            "abs" => MomTropFloat::abs(&x),
+            _ => std::process::exit(2),
+        };
+        println!("{:016x}", r.to_bits());
+        return;
+    }
+    if prop == "native-gamma" {
+        let a: f64 = args[2].parse().unwrap();
+        let p: f64 = args[3].parse().unwrap();
+        match momtrop::gamma::inverse_gamma_lr(&a, &p, 50, &5.0) {
+            Ok(v) => println!("ok {:016x} {:e}", v.to_bits(), v),
+            Err(_) => println!("err"),
+        }
+        return;
+    }
+    if prop == "native-size" {
+        let n: usize = args[2].parse().unwrap();
+        let r = std::panic::catch_unwind(|| {
+            // n parallel edges: the graph routines stay cheap, only the size matters
+            let edges = (0..n).map(|_| momtrop::Edge { vertices: (0, 1), is_massive: false, weight: 1.0 }).collect();
+            let g = momtrop::Graph { edges, externals: vec![0] };
+            g.build_sampler::<3>(vec![vec![0]; n]).is_ok()
+        });
+        println!("{}", match r { Ok(true) => "ok", Ok(false) => "err", Err(_) => "panic" });
+        return;
+    }
     if let Some(r) = replay {
         std::process::exit(props::replay(&prop, &r));
     }
     let res = match prop.as_str() {
         "C02" => props::c02::run(&cfg),
+        "C03" => props::c03::run(&cfg, props::c03::What::C03),
+        "C04" => props::c03::run(&cfg, props::c03::What::C04),
+        "C05" => props::c03::run(&cfg, props::c03::What::C05),
         "C06" => props::c06::run(&cfg),
         "C07" => props::c07::run(&cfg),
         "C08" => props::c08::run(&cfg),
@@ -47,6 +96,7 @@ fn main() {
         "C17" => props::c17::run(&cfg),
         "C18" => props::c18::run(&cfg),
         "C19" => props::c19::run(&cfg),
+        "C20" => props::c20::run(&cfg),
         _ => {
             eprintln!("unknown property {}", prop);
             std::process::exit(2);
